@@ -564,6 +564,11 @@ def resolved_text(fn, e, at_stmt, depth=0):
         def visit_Name(self, node):
             if isinstance(node.ctx, ast.Load) and depth < 4:
                 d = reaching_def(fn, node.id, at_stmt)
+                if d is None:
+                    # bound exactly once in the whole function (possibly under the same condition as the use): that binding is the value
+                    d = single_assignments(fn).get(node.id)
+                    if d is not None and any(isinstance(x, ast.Name) and x.id == node.id for x in ast.walk(d)):
+                        d = None
                 if d is not None and not any(isinstance(x, (ast.Lambda, ast.ListComp, ast.GeneratorExp, ast.List, ast.Dict, ast.Set, ast.DictComp, ast.SetComp)) for x in ast.walk(d)):
                     dstmt = None
                     for s in ast.walk(fn):
